@@ -33,7 +33,11 @@ func init() {
 	})
 }
 
+// c14BudgetObject: set while runC14 runs when the retry counter was found in a budget record (see R2)
+var c14BudgetObject bool
+
 func runC14(c *Ctx) {
+	c14BudgetObject = false
 	defer c14ReadFailures(c)
 	endorsePkg := repoPath("endorse")
 	retry := c.fn("R0", "endorse", "RetrySubmit")
@@ -322,7 +326,12 @@ func runC14(c *Ctx) {
 				counters = append(counters, phi)
 			}
 		}
-		c.S.Check(len(counters) > 0, "R2", "endorse.RetrySubmit:counter", c.pos(L.Header.Instrs[0].Pos()), "loop-carried counter incremented on every back edge", "no loop-carried counter that is incremented on every back edge of the retry loop")
+		counterPos := c.pos(L.Header.Instrs[0].Pos())
+		defer func(n int) {
+			if n > 0 || !c14BudgetObject {
+				c.S.Check(n > 0, "R2", "endorse.RetrySubmit:counter", counterPos, "loop-carried counter incremented on every back edge", "no loop-carried counter that is incremented on every back edge of the retry loop")
+			}
+		}(len(counters))
 		// budget comparisons
 		var budgetBlocks []*ssa.BasicBlock
 		for b := range L.Body {
@@ -478,6 +487,125 @@ func runC14(c *Ctx) {
 			if found {
 				budgetBlocks = append(budgetBlocks, b)
 			}
+		}
+		// the counter and the comparison may live in a budget record: `left, ok := budget.spend(); if !ok { return … }`
+		// where the record is made before the loop, the method advances a field of its receiver on every path and says
+		// ok=false on the refusing side of a direct comparison of that field with Context.CommitRetries
+		budgetObject := false
+		for b := range L.Body {
+			iff, ok := b.Instrs[len(b.Instrs)-1].(*ssa.If)
+			if !ok {
+				continue
+			}
+			ex, ok := iff.Cond.(*ssa.Extract)
+			if !ok || ex.Type().String() != "bool" {
+				continue
+			}
+			hc, ok := ex.Tuple.(*ssa.Call)
+			if !ok || L.Body[b.Succs[1]] { // the false side must leave the loop
+				continue
+			}
+			h := hc.Call.StaticCallee()
+			if h == nil || load.RelPkg(h) != "endorse" || h.Blocks == nil || h.Signature.Recv() == nil || len(hc.Call.Args) == 0 {
+				continue
+			}
+			// one record for the whole loop
+			recvAl, isAl := hc.Call.Args[0].(*ssa.Alloc)
+			if !isAl || L.Body[recvAl.Block()] {
+				continue
+			}
+			recvP := h.Params[0]
+			// (i) a field of the receiver advanced on every path
+			field := -1
+			for _, hb := range h.Blocks {
+				for _, hi := range hb.Instrs {
+					st, ok := hi.(*ssa.Store)
+					if !ok {
+						continue
+					}
+					fa, ok := st.Addr.(*ssa.FieldAddr)
+					if !ok || fa.X != ssa.Value(recvP) {
+						continue
+					}
+					add, ok := st.Val.(*ssa.BinOp)
+					if !ok || add.Op != token.ADD {
+						continue
+					}
+					k, isK := constInt(add.Y)
+					ld, isLd := add.X.(*ssa.UnOp)
+					if !isK || k <= 0 || !isLd {
+						continue
+					}
+					if fa2, ok := ld.X.(*ssa.FieldAddr); !ok || fa2.X != ssa.Value(recvP) || fa2.Field != fa.Field {
+						continue
+					}
+					all := true
+					for _, rb := range h.Blocks {
+						if _, isRet := rb.Instrs[len(rb.Instrs)-1].(*ssa.Return); isRet && !hb.Dominates(rb) {
+							all = false
+						}
+					}
+					if all {
+						field = fa.Field
+					}
+				}
+			}
+			if field < 0 {
+				continue
+			}
+			// (ii) ok=false on one side of a direct comparison of that field with the budget
+			cmp := false
+			for _, hb := range h.Blocks {
+				hif, ok := hb.Instrs[len(hb.Instrs)-1].(*ssa.If)
+				if !ok {
+					continue
+				}
+				hbo, ok := hif.Cond.(*ssa.BinOp)
+				if !ok {
+					continue
+				}
+				switch hbo.Op {
+				case token.LSS, token.LEQ, token.GTR, token.GEQ:
+				default:
+					continue
+				}
+				isCounter := func(v ssa.Value) bool {
+					if ld, ok := v.(*ssa.UnOp); ok && ld.Op == token.MUL {
+						if fa, ok := ld.X.(*ssa.FieldAddr); ok && fa.X == ssa.Value(recvP) && fa.Field == field {
+							return true
+						}
+					}
+					if add, ok := v.(*ssa.BinOp); ok && add.Op == token.ADD {
+						if ld, ok := add.X.(*ssa.UnOp); ok && ld.Op == token.MUL {
+							if fa, ok := ld.X.(*ssa.FieldAddr); ok && fa.X == ssa.Value(recvP) && fa.Field == field {
+								_, isK := constInt(add.Y)
+								return isK
+							}
+						}
+					}
+					return false
+				}
+				direct := (isCounter(hbo.X) && retriesLoad(hbo.Y)) || (isCounter(hbo.Y) && retriesLoad(hbo.X))
+				refusesOK := false
+				for _, sb := range hb.Succs {
+					if ret, ok := sb.Instrs[len(sb.Instrs)-1].(*ssa.Return); ok && ex.Index < len(ret.Results) {
+						if k, isK := ret.Results[ex.Index].(*ssa.Const); isK && k.Value != nil && !constant.BoolVal(k.Value) {
+							refusesOK = true
+						}
+					}
+				}
+				if direct && refusesOK {
+					cmp = true
+				}
+			}
+			if cmp {
+				budgetObject = true
+				c14BudgetObject = true
+				budgetBlocks = append(budgetBlocks, b)
+			}
+		}
+		if budgetObject && len(counters) == 0 {
+			c.S.OK("R2", "endorse.RetrySubmit:counter in a budget record", c.pos(L.Header.Instrs[0].Pos()), "the attempt counter is a field of a record made before the loop and advanced on every path of the method the loop asks", true)
 		}
 		okAll := len(budgetBlocks) > 0
 		for _, back := range L.Backs {
